@@ -105,6 +105,17 @@ def cases(rng, tier):
         c = ragidx.colsel_random(m, rng) if rng.random() < 0.6 else None
         idx = {"r": r, "c": c}
         add(lens, idx, rng.choice(_value_kinds(lens, idx, rng)))
+    # the assigned value is a VIEW OF THE ARRAY'S OWN BUFFER that overlaps the target (numpy semantics: as if the value had been
+    # copied first): the row reversed, a window of the flat buffer shifted by one cell, another row of the same length
+    for _ in range(150 if tier == "quick" else 2000):
+        lens = gens.shape_random(rng, 8, 6)
+        cand = [i for i, l in enumerate(lens) if l >= 1]
+        if not cand:
+            continue
+        i = rng.choice(cand)
+        how = rng.choice(["rev_row", "rev_row", "flat_shift", "other_row", "row_window"])
+        out.append({"lens": lens, "idx": {"r": {"t": "int", "i": i if rng.random() < 0.7 else i - len(lens)}, "c": None}, "val": {"t": "self", "how": how},
+                    "dtype": rng.choice(["int64", "float64", "int8", "uint16"]), "vseed": rng.randint(0, 999), "variant": 0, "selfval": True})
     # selections of MORE THAN 100000 rows (the library builds long flat-index arrays piecewise): stepped, reversed, masked and
     # permuted row selectors over arrays with many empty rows; too long for the Lean driver (implementation vs oracle only)
     for _ in range(3 if tier == "quick" else 12):
@@ -182,6 +193,13 @@ def run_impl(p):
     def f():
         cells, vpool = _pools(p)
         ra = RaggedArray(cells.copy(), list(p["lens"]))
+        if p.get("selfval"):
+            i = p["idx"]["r"]["i"]
+            val = _self_value(p, ra.ravel(), lambda j: ra[j])
+            if val is None:
+                return {"k": "obs", "rows": canon(ra), "lengths": canon([int(x) for x in ra.lengths]), "n_rows": canon(len(ra))}
+            ra[i] = val
+            return {"k": "obs", "rows": canon(ra), "lengths": canon([int(x) for x in ra.lengths]), "n_rows": canon(len(ra))}
         val = _py_value(p, vpool)
         if p.get("mask") is not None:
             mflat = np.array([b for r in p["mask"] for b in r], dtype=bool)
@@ -190,6 +208,23 @@ def run_impl(p):
             ra[ragidx.py_index(p["idx"], p.get("variant", 0))] = val
         return {"k": "obs", "rows": canon(ra), "lengths": canon([int(x) for x in ra.lengths]), "n_rows": canon(len(ra))}
     return guarded(f)
+
+
+def _self_value(p, flat, row):
+    """a value taken from the array's own storage (`flat`: its flat buffer, `row(j)`: its j-th row); None = this case has none"""
+    lens = p["lens"]; n = len(lens)
+    i = p["idx"]["r"]["i"] % n
+    L = lens[i]; st = sum(lens[:i]); tot = sum(lens)
+    how = p["val"]["how"]
+    if how == "rev_row":
+        return row(i)[::-1]
+    if how == "flat_shift":
+        k = st + 1 if st + 1 + L <= tot else st - 1
+        return flat[k:k + L] if 0 <= k and k + L <= tot else None
+    if how == "row_window":
+        return flat[st:st + L][::-1][:L]
+    js = [j for j in range(n) if j != i and lens[j] == L]
+    return row(js[0]) if js else None
 
 
 def _assign(rows, cells, vals):
@@ -206,6 +241,14 @@ def oracle(p):
     rows, k = [], 0
     for l in lens:
         rows.append(list(cells[k:k + l])); k += l
+    if p.get("selfval"):
+        old = np.array(cells).copy()
+        starts = [sum(lens[:j]) for j in range(len(lens))]
+        val = _self_value(p, old, lambda j: old[starts[j]:starts[j] + lens[j]])
+        new = [np.array(r, dtype=dt) for r in rows]
+        if val is not None:
+            new[p["idx"]["r"]["i"] % len(lens)] = np.array(val, dtype=dt).copy()
+        return {"k": "obs", "rows": {"k": "ra", "dt": str(dt), "v": [engine._nest(r.tolist()) for r in new]}, "lengths": canon(list(lens)), "n_rows": canon(len(lens))}
     vi = _value_ids(p)
     try:
         if p.get("mask") is not None:
@@ -250,7 +293,7 @@ def oracle(p):
 
 
 def lean_request(p):
-    if p.get("big"):
+    if p.get("big") or p.get("selfval"):
         return None
     vi = _value_ids(p)
     n = sum(p["lens"])
